@@ -196,6 +196,33 @@ def check(index, ctx):
                         f"first .grad write at {first['loc']} (on {first['target']}) happens before the expects-grad check of {missing} has completed: a tensor that is neither a leaf requiring grad "
                         f"nor retaining grad, listed in {missing}, makes the call raise ValueError after other .grad fields were modified", first["loc"],
                         derivation={"written": targets, "validated_before_first_write": sorted(covered)})
+    # R3, completed loops read off the source: a loop that runs the expects-grad validator over the parameters cannot be left early without raising
+    n_vloops = 0
+    for fi in index.all_functions("torchjd.autojac"):
+        if fi.parent is not None:
+            continue
+        for loop in [x for x in ast.walk(fi.node) if isinstance(x, (ast.For, ast.While))]:
+            calls = [c for b in loop.body for c in ast.walk(b) if isinstance(c, ast.Call) and norm_text(c.func).split(".")[-1] in ("_check_expects_grad", "_expects_grad")]
+            if not calls:
+                continue
+            n_vloops += 1
+            exits = []
+            stack = list(loop.body)
+            while stack:
+                x = stack.pop()
+                if isinstance(x, (ast.FunctionDef, ast.Lambda, ast.ClassDef)):
+                    continue
+                if isinstance(x, ast.Return) or (isinstance(x, ast.Break)):
+                    exits.append(x)
+                stack.extend(ast.iter_child_nodes(x))
+            # (a `break` of an inner loop that does not contain the validator call leaves only that inner loop)
+            inner = [l_ for b in loop.body for l_ in ast.walk(b) if isinstance(l_, (ast.For, ast.While)) and not any(c in list(ast.walk(l_)) for c in calls)]
+            exits = [x for x in exits if not (isinstance(x, ast.Break) and any(x in list(ast.walk(l_)) for l_ in inner))]
+            ctx.require(not exits, "R3", f"{fi.short}: the loop running the expects-grad validator over `{norm_text(loop.iter)[:50] if isinstance(loop, ast.For) else 'while'}` cannot be left early",
+                        "no return / break inside the loop",
+                        f"`{norm_text(exits[0])[:50] if exits else ''}` leaves the validation loop before every parameter was checked (e.g. at an empty group): an offending parameter further on is "
+                        "rejected only later, after other .grad fields were written", fi.loc(exits[0]) if exits else fi.loc(loop))
+    ctx.extra["validator_loops"] = n_vloops
     # R5: the emptiness of the differentiated collections is settled before the first write, in every argument form
     ctx.rule("R5", "before the first .grad write of a call, a test has established that `tensors` (backward) / `features` and `losses` (mtl_backward) are non-empty — in every "
                    "argument form (explicit and defaulted parameter lists): an empty collection is refused up front, not by whatever fails first downstream")
